@@ -26,7 +26,10 @@ RULE = ('Hypothesis: FileSpec (1-4 dims of length 1-4, 1-4 numeric variables '
         'variable) registered through setCoords.  op (1/2): second file of '
         'the same schema with independent data/masks (30% of cells repeat '
         'the left value; small non-negative integer exponents for half of '
-        'the ** cases; sometimes one variable absent on the right) x '
+        'the ** cases; sometimes one variable absent on the right; in a '
+        'quarter of the cases some variables are stored with a wider dtype on '
+        'the right - f4/f8, i2/i4, i2/i8, i4/i8, int/f8 - with values near '
+        'the limits of the left dtype) x '
         'operator + - * / // ** % < <= > >= == != .  Oracle per cell on the '
         'raw data: value = numpy op(a, b); a cell is masked iff it is masked '
         'in either operand or the value is not finite; unmasked values agree '
@@ -95,6 +98,16 @@ OPF = {'+': operator.add, '-': operator.sub, '*': operator.mul,
 PREDS = ['less', 'less_equal', 'greater', 'greater_equal', 'values', 'equal',
          'invalid']
 TINY = np.finfo(float).tiny
+# wider dtypes a right operand may use for a left variable, and values that
+# show a result narrowed to the left dtype (wrap-around, float32 overflow,
+# precision)
+WIDER = {'f4': ['f8'], 'f8': [], 'i2': ['i4', 'i8', 'f8'], 'i4': ['i8', 'f8']}
+EDGE = {'i2': [30000, -30000, 32767, -32768, 20000, 181],
+        'i4': [2000000000, -2000000000, 2147483647, 46341, 100000],
+        'i8': [30000, 40000, 2000000000, 3000000000, -70000],
+        'f4': [3.0e38, -3.0e38, 16777216.0, 1.0e-30,
+               float(np.float32(0.1))],
+        'f8': [3.0e38, 1.0e300, 1.0e-300, 0.1, 1.0 / 3.0, 1.0e-9, 65536.5]}
 # order in which mask() applies its predicates (after where)
 LIBORDER = ['greater', 'greater_equal', 'less', 'less_equal', 'values',
             'equal', 'invalid']
@@ -199,7 +212,25 @@ def cases(draw, tier='quick'):
     if kind == 'op':
         op = draw(st.sampled_from(OPS))
         small = (op == '**' and draw(st.booleans()))
-        other = draw(A.redraw(fs, FOPTS, share=0.3, int_small=small))
+        retype = {}
+        if draw(st.integers(0, 3)) == 0:
+            # same-named variables stored with different dtypes in the two
+            # files, the narrower one on the left, with values at which a
+            # narrowed result would wrap, overflow or lose precision
+            for v in fs['vars']:
+                if v.get('coord') or not WIDER[v['dtype']] or \
+                        draw(st.integers(0, 2)) == 0:
+                    continue
+                retype[v['name']] = draw(st.sampled_from(WIDER[v['dtype']]))
+                size = len(v['data'])
+                pick = draw(st.lists(st.integers(0, 2), min_size=size,
+                                     max_size=size))
+                ev = draw(st.lists(st.sampled_from(EDGE[v['dtype']]),
+                                   min_size=size, max_size=size))
+                v['data'] = [e if p_ == 0 else x
+                             for x, e, p_ in zip(v['data'], ev, pick)]
+        other = draw(A.redraw(fs, FOPTS, share=0.3, int_small=small,
+                              retype=retype, edge=EDGE))
         drop = None
         noncoord = [v['name'] for v in fs['vars'] if not v.get('coord')]
         if len(noncoord) >= 2 and draw(st.integers(0, 7)) == 0:
@@ -535,10 +566,14 @@ def _op_step(r, case, objs, later):
             if z.any():
                 r.label('int-zero-divisor-not-compared')
             dontcare |= z
-        if op in ('/', '//', '%') and res.dtype.kind == 'f':
+        if op in ('/', '//', '%') and (res.dtype.kind == 'f' or
+                                       b.dtype.kind == 'i'):
             with np.errstate(all='ignore'):
                 dom = (np.abs(a.astype('f8')) * TINY >=
                        np.abs(b.astype('f8'))) & (b != 0)
+                # numpy.ma evaluates the same test in the operands' own
+                # dtypes, where abs(most negative integer) wraps around
+                dom |= (np.absolute(a) * TINY >= np.absolute(b)) & (b != 0)
             if dom.any():
                 r.label('divide-domain-edge-not-compared')
             dontcare |= dom
@@ -550,6 +585,15 @@ def _op_step(r, case, objs, later):
         if a.dtype.kind == 'i':
             nt = True
             r.label('int-variable')
+        if a.dtype != b.dtype:
+            nt = True
+            r.label('operand-dtypes-differ:%s-%s' % (a.dtype.kind + str(
+                a.dtype.itemsize), b.dtype.kind + str(b.dtype.itemsize)))
+            with np.errstate(all='ignore'):
+                narrowed = res.astype(a.dtype).astype(res.dtype)
+                if res.dtype.kind != 'b' and not np.array_equal(
+                        narrowed, res, equal_nan=True):
+                    r.label('result-not-representable-in-left-dtype')
         if holds_special(a) or holds_special(b):
             nt = True
             r.label('zero/inf/nan-operand')
